@@ -462,15 +462,23 @@ def case_sweep(idx, rng, tier, res):
     chunk = [pairs[(idx * 7 + i) % len(pairs)] for i in range(7)]
     p = pipeline.make_parser('smiV1Relaxed')
     for v1mod, sym in chunk:
-        text = 'SW-MIB DEFINITIONS ::= BEGIN IMPORTS %s FROM %s; END' % (sym, v1mod)
+        # half of the time the statement also names a symbol of that module which has no SMIv2 home:
+        # it has to stay where it is while its neighbour moves
+        keep = rng.choice([None, 'first', 'last']) if sym != 'notABaseSymbol' else None
+        syms = {None: sym, 'first': 'stayHere, ' + sym, 'last': sym + ', stayHere'}[keep]
+        text = 'SW-MIB DEFINITIONS ::= BEGIN IMPORTS %s FROM %s; END' % (syms, v1mod)
         res.count('import_pairs_swept')
         want = home_of(v1mod, sym)
         try:
             ast = p.parse(text)[0]
             import copy
-            mi, st = SymtableCodeGen().genCode(copy.deepcopy(ast), {})
-            _mi, jtext = pipeline.make_codegen('json').genCode(copy.deepcopy(ast), {mi.name: st})
-            _mi, ptext = pipeline.make_codegen('pysnmp').genCode(copy.deepcopy(ast), {mi.name: st})
+            # as in compile(): the symbol table pass and the code generator see the very same tree
+            outs = {}
+            for b in ('json', 'pysnmp'):
+                tree = copy.deepcopy(ast)
+                mi, st = SymtableCodeGen().genCode(tree, {})
+                _mi, outs[b] = pipeline.make_codegen(b).genCode(tree, {mi.name: st})
+            jtext, ptext = outs['json'], outs['pysnmp']
         except Exception as exc:
             res.violation('sweep_failed', 'importing %s from %s: %r' % (sym, v1mod, exc), replay={'text': text})
             continue
@@ -483,6 +491,14 @@ def case_sweep(idx, rng, tier, res):
         except Exception as exc:
             res.violation('sweep_pysnmp_exec', 'importing %s from %s: %r' % (sym, v1mod, exc), replay={'text': text})
             continue
+        if keep:
+            res.count('sweep_with_unmapped_neighbour')
+            if 'stayHere' not in (imps.get(v1mod) or []):
+                res.violation('sweep_neighbour_lost', '%s FROM %s: the JSON imports no longer list stayHere under %s: %r' % (
+                    syms, v1mod, v1mod, imps), replay={'text': text}, v1mod=v1mod, sym=sym)
+            if not any(m == v1mod and 'stayHere' in ss for m, ss in db.calls):
+                res.violation('sweep_neighbour_lost', '%s FROM %s: the pysnmp module no longer imports stayHere from %s: %r' % (
+                    syms, v1mod, v1mod, db.calls), replay={'text': text}, v1mod=v1mod, sym=sym, backend='pysnmp')
         if want is None:
             # no SMIv2 home: stays where it was written
             if v1mod not in where:
